@@ -20,8 +20,10 @@ def chain(name, seed, L, pip10_at, P, scale, probes=True):
         base_rates = {"PEG": 3, "pXBT": 7, "pEUR": 2, "pUSD": 5}
     def rates(i):
         r = dict(base_rates)
-        for k in ("PEG", "pXBT", "pEUR"):
-            r[k] = max(1, r[k] + (i * 7919 % 11 - 5) * max(1, r[k] // 50))
+        # the assets move independently (pEUR against PEG, pXBT on its own phase), so that in many blocks one asset is above
+        # its average while another is below it: both legs of min(spot, avg) / max(spot, avg) bind at once
+        for k, ph in (("PEG", i * 7919 % 11 - 5), ("pXBT", (i * 104729 + 3) % 11 - 5), ("pEUR", 5 - i * 7919 % 11)):
+            r[k] = max(1, r[k] + ph * max(1, r[k] // 50))
         return r
     r0 = rates(0)
     # seed every user with pUSD / pXBT / pEUR at the first two rated blocks
@@ -37,11 +39,14 @@ def chain(name, seed, L, pip10_at, P, scale, probes=True):
         # probes in both pricing directions from two dedicated, well-funded users at every height: with PIP-10 the average binds the
         # destination (max) when prices fall and the source (min) when they rise, so a wrong averaging window always shows in some yield
         if probes:
-            usd = max(1, 300 * 10**8 * r0["PEG"] // r0["pUSD"] // 100)       # about 1/100 of what the preamble conversions yielded
-            eur = max(1, 150 * 10**8 * r0["PEG"] // r0["pEUR"] // 100)
+            usd = min(10**15, max(1, 300 * 10**8 * r0["PEG"] // r0["pUSD"] // 100))       # about 1/100 of what the preamble conversions yielded
+            eur = min(10**15, max(1, 150 * 10**8 * r0["PEG"] // r0["pEUR"] // 100))
             s.entry(h, users[-1], [{"t": "pUSD", "amt": usd + i, "conv": "pEUR"}, {"t": "pUSD", "amt": usd + 2 * i, "conv": "pXBT"}])
-            s.entry(h, users[-2], [{"t": "pEUR", "amt": eur + i, "conv": "pUSD"}, {"t": "PEG", "amt": 10**8 + i, "conv": "pUSD"}])
-        for u in (users[:-2] if probes else users):
+            s.entry(h, users[-2], [{"t": "pEUR", "amt": eur + i, "conv": "pUSD"}, {"t": "PEG", "amt": 10**8 + i, "conv": "pUSD"},
+                                   {"t": "pEUR", "amt": eur + 2 * i, "conv": "pXBT"}, {"t": "PEG", "amt": 10**8 + 2 * i, "conv": "pEUR"}])
+            xbt = min(10**15, max(1, 300 * 10**8 * r0["PEG"] // r0["pXBT"] // 100))
+            s.entry(h, users[-3], [{"t": "pXBT", "amt": xbt + (i if xbt > 50 else 0), "conv": "pEUR"}, {"t": "pXBT", "amt": xbt, "conv": "pUSD"}])
+        for u in (users[:-3] if probes else users):
             if rnd.random() < 0.6:
                 src, dst = rnd.choice(PAIRS)
                 amt = rnd.choice([1, 2, 3, 99999999, 10**8, 10**8 + 1, rnd.randint(1, 10**11), rnd.randint(1, 10**6)])
